@@ -113,12 +113,18 @@ Proof.
   clear -F. induction F as [| a b la lb [_ Hb] F' IHF]; constructor; auto.
 Qed.
 
-(** the SD functions that assign to handle->flags are exactly the ones the model lets change the flags: SDstart, SDend,
-    SDgetdimscale and eleven of the sixteen guarded mutators *)
+(** the functions of mfsd.c that assign to handle->flags, and the callers of the unguarded helper *)
 Lemma sd_flag_writers_are_modelled :
   sd_flag_updates_count = 14 /\ sd_flag_updates_sdstart = 1 /\ sd_flag_updates_sdend = 2 /\ sd_flag_updates_sdgetdimscale = 1 /\
   sd_flag_updates_sdcreate = 1 /\ sd_flag_updates_sdsetdimname = 2 /\ sd_flag_updates_sdsetrange = 1 /\
   sd_flag_updates_sdsetattr = 1 /\ sd_flag_updates_sdsetdatastrs = 1 /\ sd_flag_updates_sdsetcal = 1 /\
   sd_flag_updates_sdsetfillvalue = 1 /\ sd_flag_updates_sdsetdimstrs = 1 /\ sd_flag_updates_sdsetdimscale = 1 /\
-  sd_flag_updates_sdsetdimval_comp = 1 /\ sd_flag_updates_sdsetcompress = 1.
+  sd_flag_updates_sdsetdimval_comp = 1 /\ sd_flag_updates_sdiregister_data_ref = 1 /\
+  sd_register_callers_count = 4 /\ sd_register_callers_sdsetcompress = 1 /\ sd_register_callers_sdsetchunk = 1 /\
+  sd_register_callers_sdsetexternalfile = 1 /\ sd_register_callers_sdsetnbitdataset = 1.
 Proof. repeat split; reflexivity. Qed.
+
+Lemma sd_marks_table :
+  map sd_marks_header (seq 0 16) =
+  [true; true; true; true; true; true; true; true; true; true; false; true; true; true; true; false].
+Proof. reflexivity. Qed.
